@@ -15,11 +15,13 @@ ids = a.ids or sorted(os.listdir(a.dir))
 import re
 allprops = sorted(f[:-3].upper() for f in os.listdir("/verif/ubcheck/rules") if re.fullmatch(r"c\d\d\.py", f))
 summary = {}
-for sid in ids:
+
+
+def one(sid):
     d = os.path.join(a.dir, sid)
     patch = os.path.join(d, "patch.diff")
     if not os.path.exists(patch):
-        continue
+        return None
     wt = tempfile.mkdtemp(prefix="ubseed_")
     out = tempfile.mkdtemp(prefix="ubout_")
     os.rmdir(wt)
@@ -27,7 +29,7 @@ for sid in ids:
     try:
         r = subprocess.run(["git", "-C", wt, "apply", patch], capture_output=True, text=True)
         if r.returncode:
-            print(sid, "PATCH DOES NOT APPLY", r.stderr.strip()[:200]); summary[sid] = "noapply"; continue
+            return f"{sid} PATCH DOES NOT APPLY {r.stderr.strip()[:200]}"
         own = sid.split("-")[0]
         props = allprops if a.props == "all" else ([own] if a.props == "own" else a.props.split(","))
         res = {}
@@ -40,9 +42,15 @@ for sid in ids:
             res[p] = f"rc={r.returncode} {','.join(rules)}"
             if r.returncode == 2:
                 res[p] += " " + " ".join(l for l in r.stdout.splitlines() if l.startswith("ANALYSIS-ERROR"))[:300]
-        summary[sid] = res
         flagged = [p for p, v in res.items() if v.startswith("rc=1")]
-        print(sid, "CAUGHT by " + ",".join(flagged) if flagged else "MISSED", json.dumps(res))
+        return f"{sid} " + ("CAUGHT by " + ",".join(flagged) if flagged else "MISSED") + " " + json.dumps(res)
     finally:
         subprocess.run(["git", "-C", "/repo", "worktree", "remove", "--force", wt])
         shutil.rmtree(out, ignore_errors=True)
+
+
+from concurrent.futures import ThreadPoolExecutor
+with ThreadPoolExecutor(int(os.environ.get("JOBS", "14"))) as ex:
+    for line in ex.map(one, ids):
+        if line:
+            print(line, flush=True)
